@@ -33,8 +33,9 @@ RULE = ("(i) dyadic: probability vectors with 2..64 (thorough ..512) entries tha
         "sample_with_u calls, _max_storage lowered; (iv) sample(size) with a prescribed uniform vector. "
         "non-trivial = at least 3 states of positive probability; distinct = distinct (stream, method, vector / chain description)")
 NOT_PROVED = [
-    "alias construction: `create_alias` preserves the law (Alias.build_law) is proved for the model of the code over Q only if listed in "
-    "the theorem list of this run; otherwise the proved certificate `lawOfTables` is applied to the tables the implementation built",
+    "alias construction: that `create_alias` (LIFO stacks, two clean-up loops) yields tables with lawOfTables(build p) = p is NOT proved; "
+    "the proved certificate (Alias.draw_spec + law_of_cells for arbitrary tables) is applied to the tables the implementation built, and "
+    "M's `build` is compared with the implementation's (J, q) exactly on the dyadic stream",
     "binary search tree: the in-order construction (`Bst.build` gives cells of length p_k) is not proved; the proved `Bst.draw_spec` "
     "(cells of arbitrary threshold tables) is applied to the implementation's array and the lengths are compared with p",
     "table method: law proved for the idealisation (slot uniform on 256 values independent of a continuous residual uniform); the "
@@ -45,7 +46,9 @@ NOT_PROVED = [
     "1-d adapted bisection: draw_spec proved for a cell-mass table `w` with P(l,r) = sum of w; additivity of the real mass is C01/C09",
     "floating point: thresholds are compared at cell midpoints and at boundaries +- 2^-30 width; u exactly on a boundary is a don't-care point",
 ]
-ASSUMPTIONS = ["the uniform source (numpy.random.uniform / random.getrandbits) is uniform",
+ASSUMPTIONS = ["float sums of a probability vector differ from 1 by a few ulps: the sliver [sum p, 1) of length < 2^-40 (sent to the last leaf / last "
+               "column / a frontier state by the implementations) is not judged",
+               "the uniform source (numpy.random.uniform / random.getrandbits) is uniform",
                "PairingToZ1d.project is a pure function of its index as long as the sampler is its only caller (increasing first calls)",
                "functools.lru_cache is a memo of a pure function"]
 TRUSTED = ["bisect.bisect_left, numpy.searchsorted (first index with entry >= u on a sorted list)"]
@@ -478,9 +481,9 @@ def boundary_points(ctx, d, cls, s, single, mname, admissible):
     """don't-care points (u exactly on a cell boundary): only "no exception, a state of the grid other than the origin";
     each point is asked twice (the second call of the inversion sampler takes the memoised branch)"""
     if mname == "INVERSION":
-        pts = [float(c) for c in list(s._cumulative_probabilities)[:-1]][:40]
+        pts = [float(c) for c in list(s._cumulative_probabilities) if c < 1.0 - 2.0 ** -40][:40]
     elif mname == "BINARYSEARCHTREE":
-        pts = [float(c) for c in s.bst if 0.0 < c < 1.0][:40]
+        pts = [float(c) for c in s.bst if 0.0 < c < 1.0 - 2.0 ** -40][:40]      # beyond: float-sum sliver [sum p, 1), not judged
     else:
         return
     try:
@@ -556,10 +559,6 @@ def history_case(ctx, d, cls, mk, cells, o, env=None, nd=False):
     us = [u for _, lo, hi in cells for u in probe_points(lo, hi)[:1]]
     if len(us) < 2:
         return
-    expected = {}
-    for _, lo, hi in cells:
-        for u in probe_points(lo, hi)[:1]:
-            pass
     fresh_ref = mk().sampling                     # answers of a never-used instance, one uniform each in increasing order
     hcls = dict(cls, stream="history")
     steps = ctx.n(60, 400)
@@ -569,7 +568,7 @@ def history_case(ctx, d, cls, mk, cells, o, env=None, nd=False):
     if env is not None:
         adm, prob, incs, mf = env
         nadm = sum(adm)
-        cap = rng.choice([1, 2, 3, max(1, nadm // 2), max(1, nadm - 1), nadm, nadm + 1])
+        cap = rng.choice([1, 2, 3, max(1, nadm // 2), max(1, nadm - 1), nadm, nadm + 1] + [rng.randint(1, nadm + 1) for _ in range(7)])
         inst._max_storage = cap
         # the memo index of a state equals its pairing index only without skipped indices below the cap
         adm_idx = [i for i, a in enumerate(adm) if a]
@@ -738,7 +737,7 @@ def copula_case(ctx, margins_desc, cop, gkind, gkw, mname):
 def run(ctx):
     rng = ctx.rng
     # (i) dyadic stream
-    for _ in range(ctx.n(70, 500)):
+    for _ in range(ctx.n(140, 500)):
         kind, p = dyadic_vector(rng, ctx.n(64, 512))
         for method in ("alias", "bst", "huffman", "table"):
             if len(p) > 128 and method == "alias" and rng.random() < 0.5:
@@ -749,7 +748,7 @@ def run(ctx):
         for method in ("alias", "bst", "huffman", "table"):
             dyadic_case(ctx, method, "edge", p)
     # (ii)+(iii)+(iv) factory stream, one-dimensional chains
-    models = zoo.model_stream(rng, ctx.n(7, 30))
+    models = zoo.model_stream(rng, ctx.n(14, 30))
     for fam, params in models:
         kinds = list(zoo.GRID_KINDS) if ctx.thorough else rng.sample(zoo.GRID_KINDS, 3)
         if "probstep" not in kinds and rng.random() < 0.5:
@@ -758,8 +757,10 @@ def run(ctx):
             h, kw = grid_kwargs(rng, kind)
             for mname in METHODS_1D:
                 one_d_chain_case(ctx, fam, params, kind, h, kw, mname, dict(stream="factory", family=fam, params=params, h=h, kw=kw, grid=kind))
-    # 2-d copula chains
-    for _ in range(ctx.n(2, 10)):
+    # 2-d copula chains: one fixed unequal-sided credit grid (pairing indices are skipped), then random ones
+    for mname in ("INVERSION", "BINARYSEARCHTREEADAPTED"):
+        copula_case(ctx, [("hem", {}), ("merton", {})], "clayton", "credit", {"h": 0.1, "a": [-0.3, -0.4], "sym": False}, mname)
+    for _ in range(ctx.n(3, 10)):
         margins = [(rng.choice(["hem", "merton"]), {}) for _ in range(2)]
         cop = rng.choice(zoo.COPULAS)
         if rng.random() < 0.5:
